@@ -27,7 +27,7 @@ def vf_jobs(tier):
         witnesses=['rejected','priming failed','spliced with differing half-rate flags'],models=ENV,tags=['C19','C03'],functions=['ov_crosslap','ov_info','ov_halfrate_p'],bounds='two single-link handles, short blocks 64..4096, channels 1..3'))
     for npg in ([2] if q else [2,3]):
         J.append(Job('page-bisect-%d'%npg,'vf/page_bisect.c',defs=['-DNP=%d'%npg],cuts={'vorbisfile.c':['_seek_helper','_get_next_page','_get_prev_page']},unwind=12,unwindset=[('harness',None,npg+1),('_get_next_page',None,npg+1)],object_bits=12,
-            witnesses=['cross-link seek','middle page chosen' if npg>2 else 'cross-link seek','first-page special case'],models=ENV+['abstract page table (M-frame(c))'],tags=['C08','C07','C03','C09'],
+            witnesses=['cross-link seek','middle page chosen' if npg>2 else 'cross-link seek','first-page special case','same link, decode machine dumped before (state after a failed seek)'],models=ENV+['abstract page table (M-frame(c))'],tags=['C08','C07','C03','C09'],
             functions=['ov_pcm_seek_page','ov_pcm_total','_decode_clear'],bounds='2 links, %d pages in the target link, file < 64 KiB, <=10 page fetches'%npg,weight=4))
     J.append(Job('pcm-exact','vf/pcm_seek.c',defs=['-DNPK=%d'%(3 if q else 5),'-DENV_BUDGET=3'],cuts={'vorbisfile.c':['ov_pcm_seek_page','_get_next_page','_fetch_and_process_packet']},unwind=(3 if q else 5)+4,object_bits=12,
         witnesses=['packets discarded in the second link','samples discarded up to the target','seek failed','recorded position already equals the target'],models=ENV+['contract of ov_pcm_seek_page (page-bisect)'],tags=['C08','C07','C03','C20','C19'],
@@ -47,6 +47,10 @@ def vf_jobs(tier):
         J.append(Job(nm,'vf/f_headers.c',defs=d+['-DENV_BUDGET=%d'%(6 if q else 8)],cuts={'vorbisfile.c':['_get_next_page']},unwind=(6 if q else 8)+3,unwindset=[('env_fill_page',None,28),('ogg_page_granulepos',None,10),('harness',None,64)],checks=['leak'],object_bits=12,
             witnesses=wit,models=ENV,tags=['C03','C12','C13'],functions=['_fetch_headers','_add_serialno','_lookup_serialno']+(['_ov_open1','ov_clear'] if d else []),
             bounds='<=%d page/packet events; vi/vc with arbitrary prior contents'%(6 if q else 8),weight=4,mem_est=4))
+    for w in (0,1):
+        J.append(Job('F-info-%s'%('int' if w==0 else 'time'),'vf/f_info.c',defs=['-DWHICH=%d'%w,'-DNL=3'],unwind=6,object_bits=12,witnesses=['query refused']+(['chain totals'] if w==0 else ['time tell with an unknown position']),models=ENV,tags=['C03','C09','C12'],
+            functions=(['ov_streams','ov_seekable','ov_serialnumber','ov_raw_total','ov_pcm_total','ov_info','ov_comment','ov_pcm_tell','ov_raw_tell','ov_bitrate'] if w==0 else ['ov_time_total','ov_time_tell']),
+            bounds='<=3 links with exact-size tables, link argument -2..4, recorded position -1..2^34, any ready state',weight=2))
     for nm,d in (('F-prevserial',[]),('F-prevpage',['-DPLAIN'])):
         J.append(Job(nm,'vf/f_prevpage.c',defs=d,cuts={'vorbisfile.c':['_seek_helper','_get_next_page']},unwind=10,unwindset=[('env_fill_page',None,28)],object_bits=12,
             witnesses=['page found','error under persisting end of data']+([] if d else ["preferred stream's page returned although another stream's page follows it"]),models=ENV+['recurrence (lasso) check in the _seek_helper contract'],tags=['C03','C12','C09','C04'],
